@@ -24,6 +24,7 @@ FAMS = {"id": 70, "elementwise": 60, "reduce": 50, "dot": 40, "get_at": 40, "pre
 N_RANDOM = {"quick": 400, "thorough": 6000}
 MAX_NODES = {"quick": 12, "thorough": 25}
 THOROUGH_MULT = 10
+ADAPTER_OPTIONS = [1.0, 2.0, 3.0, 4.0, 6.0, 0.0, -0.0, 1, 2, 3, True, False, 2.5]
 _CONST = re.compile(r"^# Constant (const\d+):", re.M)
 
 
@@ -133,7 +134,11 @@ def work_captured(item):
         from checks import c15
 
         log = []
-        fn = einx.numpy.adapt_numpylike_reduce(c15.make_reduce(log, False)) if case["family"] == "reduce" else einx.numpy.adapt_numpylike_elementwise(c15.make_elementwise(log, len(arrs), False))
+        # the option is a literal of the generated code: ints, floats equal to ints that occur in shapes, bools, signed zero
+        opt = random.Random(case["desc"]).choice(ADAPTER_OPTIONS)
+        kw["scale"] = opt
+        res["option"] = repr(opt)
+        fn = einx.numpy.adapt_numpylike_reduce(c15.make_reduce(log, True)) if case["family"] == "reduce" else einx.numpy.adapt_numpylike_elementwise(c15.make_elementwise(log, len(arrs), True))
     if variant == "factory":
         i = len(arrs) - 1 if case["family"] != "update" else len(arrs) - 1
         t = arrs[i]
@@ -386,8 +391,16 @@ SPEC = json.loads(r"""{spec}""")
 def tup(v): return tuple(tup(x) for x in v) if isinstance(v, list) else v
 args = [np.array(a["data"], dtype=a["dtype"]).reshape(a["shape"]) for a in SPEC["args"]]
 kw = {{k: tup(v) for k, v in SPEC["kwargs"].items()}}
+fn = getattr(einx, SPEC["op"])
+if SPEC.get("adapter"):
+    from checks import c15
+    import einx.numpy
+    base = c15.concrete_fn(SPEC["adapter"], True)
+    fn = einx.numpy.adapt_numpylike_reduce(base) if SPEC["adapter"] == "reduce" else einx.numpy.adapt_numpylike_elementwise(base)
+    kw["scale"] = eval(SPEC["option"])
+    print("adapted user function, option scale=%s" % SPEC["option"])
 with graphs.Capture() as cap:
-    text = getattr(einx, SPEC["op"])(SPEC["desc"], *args, graph=True, **kw)
+    text = fn(SPEC["desc"], *args, graph=True, **kw)
 rec = cap.records[-1]
 print(text)
 try:
@@ -409,7 +422,7 @@ print("NOT-REPRODUCED"); sys.exit(0)
 '''
 
 
-def write_captured_replay(case):
+def write_captured_replay(case, adapter=None, option=None):
     import hashlib, json, os
 
     conc = []
@@ -424,6 +437,8 @@ def write_captured_replay(case):
             a = (np.arange(n, dtype=np.int64) * 3 + 1).reshape(sh)
         conc.append({"data": a.tolist(), "dtype": str(a.dtype), "shape": list(sh)})
     spec = {"op": case["op"], "desc": case["desc"], "args": conc, "kwargs": runner.jsonable(dict(case["kwargs"], **case["opts"]))}
+    if adapter:
+        spec["adapter"], spec["option"] = adapter, option
     text = json.dumps(spec)
     os.makedirs(os.path.join(runner.REPLAY_DIR, PROP), exist_ok=True)
     path = os.path.join(runner.REPLAY_DIR, PROP, "captured_" + hashlib.sha1(text.encode()).hexdigest()[:12] + ".py")
@@ -468,8 +483,8 @@ def main():
         if (st_ == "violation?") and not BUDGET.take():
             st_ = "sat-not-replayed"
         elif st_ == "violation?":
-            path = write_captured_replay(case) if variant == "plain" else "-"
-            ok, out = replay.run_script(path, python=replay.VENV_PY) if path != "-" else (True, "adapter/factory variant: see problems")
+            path = write_captured_replay(case) if variant == "plain" else write_captured_replay(case, "reduce" if case["family"] == "reduce" else "elementwise", r.get("option")) if variant == "adapter" else "-"
+            ok, out = replay.run_script(path, python=replay.VENV_PY) if path != "-" else (True, "factory variant: see problems")
             st_ = "violation" if ok else "not-reproduced"
             r["replay"], r["replay_out"] = path, out[-1500:]
         status["captured:" + st_] += 1
